@@ -567,6 +567,9 @@ class Interp:
             self.control_fired += 1
         return self.neutral()
 
+    # for the csvpath that executes it stop_all() is a stop() (what it does to the other csvpaths of a run is not modelled)
+    m_stop_all = m_stop
+
     def m_skip(self, n, q, a):
         if len(a) == 0 or self.match(a[0]):
             self.skip = True
